@@ -35,7 +35,8 @@ func init() {
 		Rule: "case = one generated chain state (populated vesting/minter/distributor/signature stores; variants: a pool whose vesting type was removed, accounts without public key, vesting denom changed by governance to each odd denom the module's validation accepts, traced address that is not a vesting account) x 250 invocations. " +
 			"Every message type of the four modules (8+2+4+3) and every gRPC query method is filled by reflection, field by field, from pools of boundary values chosen by field type and name (empty / malformed / wrong-prefix / unknown / existing addresses, nil / negative / zero / 2^255 Int and Dec, nil / unsorted / duplicate / zero / invalid-denom coins, nil pointers and slices, Any nil / unknown type-url / not unpacked / wrong cached type, durations <= 0, int64 extremes, malformed JSON and PEM), half of the fields plausible so that handlers are reached. " +
 			"Routes: ValidateBasic -> GetSigners -> registered handler (message server for the unroutable signature module) under recover on a branched context; the same message in a signed transaction through CheckTx-less DeliverTx (ErrPanic results); queries through the keeper's query server and through app.Query. " +
-			"Oracle: no panic anywhere except in a handler whose message ValidateBasic rejected (production never calls it). Non-trivial: the invocation reached a handler or a querier body. Distinct by (state variant, type, field-class vector) hash per case.",
+			"Oracle: no panic anywhere except in a handler whose message ValidateBasic rejected (production never calls it). Non-trivial: the invocation reached a handler or a querier body. Distinct by (state variant, type, field-class vector) hash per case." +
+			" Also: extreme int64 values (MinInt64, MaxInt64), vesting periods at the int64 limit, stored certificates of degenerate shapes; vesting accounts the fuzzer created become senders of later messages.",
 		Assumptions:   []string{"a worker process that dies inside a case (Go fatal error) is reported as a violation with the last logged case"},
 		Cases:         func(t string) int { return tierN(t, 960, 16000) },
 		MinNontrivial: func(t string) int { return tierN(t, 600, 10000) },
